@@ -48,8 +48,13 @@ def build(n, pairs, sh, form):
     return Sm, hm, rows, cols, S, h
 
 
+VSCALES = [0, 0, -30, 20, -45]          # log2 of the unit the integer volumes are given in (2^-30 ~ 1e-9: tiny 6D cells)
+
+
 def one(n, pairs, sh, V, k, D, T, base, form, rng):
     from molgri.molecules.transitions import SQRA
+    vlog = rng.choice(VSCALES)
+    vs = 2.0 ** vlog
     Sm, hm, rows, cols, S, h = build(n, pairs, sh, form)
     u = unit(T, base)
     cap = 2 if (T == T_CAP and base == 2) else -1
@@ -59,23 +64,23 @@ def one(n, pairs, sh, V, k, D, T, base, form, rng):
         K = max(K, 2)
     C = 36 * base ** K
     rec = dict(n=n, pat=[[r, c] for r, c in zip(rows, cols)], S=[int(x) for x in S], h=[int(x) for x in h], V=[int(v) for v in V],
-               k=[int(x) for x in k], D=int(D), cap=cap, base=base, C=C, T=T, form=form, Qc=[], Qme=[], rowRes12=0, wide=False, exact=True, shift12=0, linear12=0, err="")
+               k=[int(x) for x in k], D=int(D), cap=cap, base=base, C=C, T=T, form=form, vlog=vlog, Qc=[], Qme=[], rowRes12=0, wide=False, exact=True, shift12=0, linear12=0, err="")
     try:
         with quiet():
-            Q = SQRA(E, np.array(V, dtype=float), hm, Sm).get_rate_matrix(float(D), T)
-        A = np.asarray(Q.toarray(), dtype=float)
+            Q = SQRA(E, np.array(V, dtype=float) * vs, hm, Sm).get_rate_matrix(float(D), T)
+        A = np.asarray(Q.toarray(), dtype=float) * vs          # volumes in units of 2^vlog: exact rescaling by a power of two
         X = A * C
         R = np.round(X)
         rec["exact"] = bool(A.shape == (n, n) and np.all(np.abs(X - R) <= 1e-9 * np.maximum(1.0, np.abs(R))))
         rec["Qc"] = [[int(v) for v in row] for row in R.tolist()]
         c = rng.choice([rng.uniform(-30, 30), -25000.0, -6000.0, 4000.0, 30000.0])      # also absolute (force-field / QM) energy scales
         with quiet():
-            again = SQRA(E, np.array(V, dtype=float), hm, Sm).get_rate_matrix(float(D), T).toarray()     # the same inputs once more
+            again = SQRA(E, np.array(V, dtype=float) * vs, hm, Sm).get_rate_matrix(float(D), T).toarray() * vs     # the same inputs once more
         if not np.array_equal(again, A):
             rec["exact"] = False           # a second evaluation on the same input objects differs: the inputs were modified
         with quiet():
-            Q2 = SQRA(E + c, np.array(V, dtype=float), hm, Sm).get_rate_matrix(float(D), T).toarray()
-            Q3 = SQRA(E, np.array(V, dtype=float), hm, Sm).get_rate_matrix(2.0 * D, T).toarray()
+            Q2 = SQRA(E + c, np.array(V, dtype=float) * vs, hm, Sm).get_rate_matrix(float(D), T).toarray() * vs
+            Q3 = SQRA(E, np.array(V, dtype=float) * vs, hm, Sm).get_rate_matrix(2.0 * D, T).toarray() * vs
         scale = np.maximum(np.abs(A), 1e-300)
         rec["shift12"] = int(np.ceil(np.max(np.abs(Q2 - A) / scale) * 1e12)) if A.size else 0
         rec["linear12"] = int(np.ceil(np.max(np.abs(Q3 - 2 * A) / scale) * 1e12)) if A.size else 0
@@ -192,7 +197,7 @@ def run(ctx: Ctx):
     rejects = ctx.validate("Sqra_Trace", "Sqra_Trace.cfg", recs, name="sqra")
     for tid, clause, _ in rejects:
         r = recs[tid]
-        key = (f"SQRA n={r['n']} pat={[p for p in r['pat'] if p[0] < p[1]]} S={r['S']} h={r['h']} V={r['V']} k={r['k']} "
+        key = (f"SQRA n={r['n']} pat={[p for p in r['pat'] if p[0] < p[1]]} S={r['S']} h={r['h']} V={r['V']}{('*2^' + str(r['vlog'])) if r.get('vlog') else ''} k={r['k']} "
                f"D={r['D']} T={r['T']:.1f} base={r['base']} {r['form']}: {clause}")
         ctx.violation(key, dict(record=r, clause=clause))
     ctx.cov["exhaustive"] = False
